@@ -466,11 +466,19 @@ class Program:
     def find_impl(self, trait, method, self_t, trait_args=()):
         """first repo impl of `trait::method` (trait None = inherent) whose Self pattern unifies with self_t"""
         out = []
-        if is_foreign_type(self_t):
-            return None
+        foreign = is_foreign_type(self_t)
+        if foreign and trait is None:
+            return None                     # the repository cannot have inherent impls of a foreign type
         for e in self.impl_methods.get((trait, method), ()):
             if e.self_pat is None:
                 continue
+            if foreign:
+                # a trait impl for a foreign type (`impl Argument for Cow<'_, str>`): never match a repository type of the same name
+                sp = e.self_pat
+                while sp[0] in ('ref', 'ptr'):
+                    sp = sp[2]
+                if sp[0] == 'path' and sp[1] not in e.params and (base_name(sp) in self.structs or base_name(sp) in self.enums):
+                    continue
             env = {}
             if not unify(e.self_pat, self_t, e.params, env):
                 continue
